@@ -267,11 +267,13 @@ template <class R> inline void scalarFamily(vh::Ctx& c, vh::Rng& r, int which) {
     case 2: scalarPair<Z, NJ>(c, r); scalarPair<NJ, Z>(c, r); scalarPair<NJ, NJ>(c, r); scalarPair<J, NJ>(c, r); scalarPair<NJ, J>(c, r); break;
     case 3: scalarPair<NZ, NJ>(c, r); scalarPair<NJ, NZ>(c, r); break;
     case 4: scalarPair<Z, R>(c, r); scalarPair<J, R>(c, r); scalarPair<NZ, R>(c, r); scalarPair<NJ, R>(c, r); scalarPair<Z, NR>(c, r); scalarPair<J, NR>(c, r); break;
-    default: scalarPair<NZ, NR>(c, r); scalarPair<NJ, NR>(c, r); scalarPair<Z, Z>(c, r); break;
+    case 5: scalarPair<NZ, NR>(c, r); scalarPair<NJ, NR>(c, r); scalarPair<Z, Z>(c, r); break;
+    case 6: scalarPair<R, Z>(c, r); scalarPair<R, J>(c, r); scalarPair<R, NZ>(c, r); scalarPair<R, NJ>(c, r); break;     // real on the left
+    default: scalarPair<NR, Z>(c, r); scalarPair<NR, J>(c, r); scalarPair<NR, NZ>(c, r); scalarPair<NR, NJ>(c, r); break;
     }
 }
 inline void runScalarCase(vh::Ctx& c, vh::Rng& r, long idx) {
-    int which = (int)(idx % 6); bool dbl = ((idx / 6) % 2) == 0;
+    int which = (int)(idx % 8); bool dbl = ((idx / 8) % 2) == 0;
     c.setPhase(std::string("scalar adaptors group ") + std::to_string(which) + (dbl ? " double" : " float"));
     if (dbl) scalarFamily<double>(c, r, which); else scalarFamily<float>(c, r, which);
 }
